@@ -82,4 +82,17 @@ def segsWf : List (G × Str) → Bool
 
 def wf (P : PatS) : Bool := !P.lit0.contains cLpar && !P.lit0.contains cRpar && segsWf P.segs
 
+/-! ### named rules (for `reverse_url`) -/
+
+mutual
+  def namedT (name : Nat) : Target → List Matcher
+    | .router rs => namedIn name rs
+    | .handler _ => []
+    | .inert => []
+  /-- the matchers of all rules carrying `name`, anywhere in the tree (nested routers included) -/
+  def namedIn (name : Nat) : Rules → List Matcher
+    | .nil => []
+    | .cons m t _ n rest => (if n = some name then [m] else []) ++ namedT name t ++ namedIn name rest
+end
+
 end TornadoModel.C31.Spec
